@@ -145,6 +145,7 @@ class OperatorTable(Expression):
                 out += BREAK
 
             out += Code('_prec') << RESULT[0]
+            out += Code('_is_chained') << False
 
             with out.WHILE(operator_stack):
                 out += Code('_top_prec, _top_assoc, _') << operator_stack[-1]
@@ -153,9 +154,15 @@ class OperatorTable(Expression):
                     pop_operator()
                 with out.ELIF(Code(f'_top_prec == _prec and _top_assoc == 3')):
                     out += (POS << outer_checkpoint)
+                    out += Code('_is_chained') << True
                     out += BREAK
                 with out.ELSE():
                     out += BREAK
+
+            # A non-associative operator cannot be chained. The expression ends
+            # in front of the second operator.
+            with out.IF(Code('_is_chained')):
+                out += BREAK
 
             out += operator_marker << Code(f'len({operator_stack})')
             out += operator_stack.append(RESULT)
